@@ -104,12 +104,16 @@ def gjk_nesterov_accelerated(
     normalize_support_direction = type(collider0) == MeshGraph and type(collider1) == MeshGraph
 
     # Infaltion is only used with spheres and capsules
+    # The core shapes (point, line segment) are only used by the specialized
+    # support functions, which require that both colliders have one. Otherwise
+    # the full support functions already include the radius.
     inflation = 0.0
-    if type(collider0) == Sphere or type(collider0) == Capsule:
-        inflation += collider0.radius
+    if _has_specialized_support(collider0) and _has_specialized_support(collider1):
+        if type(collider0) == Sphere or type(collider0) == Capsule:
+            inflation += collider0.radius
 
-    if type(collider1) == Sphere or type(collider1) == Capsule:
-        inflation += collider1.radius
+        if type(collider1) == Sphere or type(collider1) == Capsule:
+            inflation += collider1.radius
 
     upper_bound += inflation
 
@@ -518,6 +522,10 @@ def support_function(dir, collider0, collider1):
         return support0, support1
 
     return collider0.support_function(dir), collider1.support_function(-dir)
+
+
+def _has_specialized_support(collider):
+    return type(collider) in (Sphere, Capsule, Box, Ellipsoid, Cylinder)
 
 
 def select_support(dir, collider):
